@@ -129,6 +129,9 @@ structure Policy where
   vs : Nat → Oid → Name → Ans
   script : Nat → String → List Op
   co : Nat → String → CoAns
+  /-- re-entrancy: while answering creator_file(name) the verification master first calls back into the creating
+      object - only when that is the master itself - and makes it seteuid(0) -/
+  cfDrop : Nat → String → Bool := fun _ _ => false
 
 inductive Err where
   | noEuidLoad | noEuidClone | exportZero | badArg | policy | simulDest
@@ -346,6 +349,29 @@ abbrev Run := World → Oid → Op → World × List StepRec
 def single (a : Oid) (op : Op) (x : World × List Creation × Option (Oid × Name × Ans) × Res) : World × List StepRec :=
   (x.1, [seg x.1 a op x.2.2.1 x.2.1 (some x.2.2.2) true])
 
+def singleF (a : Oid) (op : Op) (x : World × List Creation × Option (Oid × Name × Ans) × Res) (first : Bool) :
+    World × List StepRec :=
+  (x.1, [seg x.1 a op x.2.2.1 x.2.1 (some x.2.2.2) first])
+
+/-- give_uid_to_object asks master::creator_file(name) through apply_master_ob and reads current_object->uid / ->euid
+    only AFTERWARDS: what the apply did to the creating object counts.  The verification master can (policy `cfDrop`)
+    call back into the creating object when that is the master itself and make it `seteuid(0)` before it answers:
+    the open segment of the op is closed, the nested op runs (`run`), and the creation `k` continues from the world
+    after it with the creating object re-read.  `active`: the op really reaches creator_file. -/
+def withCfPre (pol : Policy) (i : Nat) (run : Run) (active : Bool) (w : World) (a : Oid) (op : Op) (first : Bool)
+    (name : String) (k : World → Obj → Bool → World × List StepRec) : World × List StepRec :=
+  match getO w.objs a with
+  | none => (w, [seg w a op none [] (some .nobj) first])
+  | some A =>
+    if active = true ∧ pol.cfDrop i name = true ∧ a = masterOid then
+      let y := run w masterOid (.seteuidInt 0)
+      match getO y.1.objs a with
+      | none => (y.1, seg w a op none [] none first :: y.2 ++ [seg y.1 a op none [] (some .nobj) false])
+      | some A2 =>
+        let r := k y.1 A2 false
+        (r.1, seg w a op none [] none first :: y.2 ++ r.2)
+    else k w A first
+
 /-- the object a one-creation phase really created (creator_file was asked and create() ran) -/
 def createdNow : List Creation → Option Obj
   | [c] => if c.ans.isSome then c.made else none
@@ -396,18 +422,29 @@ def needsCompile (w : World) (A : Obj) (p : Path) : Bool :=
   decide (¬ ((p.name ∉ w.loaded ∨ p.name ∈ w.half) ∧ getO w.objs p.oid ≠ none) ∧ p.name ∉ w.loaded ∧
     ¬ (A.oid ≠ masterOid ∧ A.euid = none) ∧ p.exists = false)
 
+/-- load_object reaches creator_file: not found in the object table, euid test passed, the file exists -/
+def loadCreates (w : World) (A : Obj) (p : Path) : Bool :=
+  decide (¬ ((p.name ∉ w.loaded ∨ p.name ∈ w.half) ∧ getO w.objs p.oid ≠ none) ∧ p.name ∉ w.loaded ∧
+    ¬ (A.oid ≠ masterOid ∧ A.euid = none) ∧ p.exists = true)
+
+/-- load_object of an ordinary (non virtual) path from world `w` -/
+def execLoadCore (cfg : Cfg) (pol : Policy) (i : Nat) (sub : Sub) (w : World) (a : Oid) (A : Obj) (p : Path)
+    (first : Bool) : World × List StepRec :=
+  let x := doLoad cfg pol i w A p
+  match createdNow x.2.1 with
+  | none => singleF a (.load p) x first
+  | some o =>
+    let y := sub x.1 o.oid p.name
+    (y.1, seg x.1 a (.load p) none x.2.1 none first :: y.2 ++ [seg y.1 a (.load p) none [] (some x.2.2.2) false])
+
 def execLoad (cfg : Cfg) (pol : Policy) (i : Nat) (run : Run) (sub : Sub) (w : World) (a : Oid) (A : Obj) (p : Path) :
     World × List StepRec :=
   if needsCompile w A p = true then
     let v := virtCore pol i run w a (.load p) true p false
     (v.1, v.2.1 ++ [seg v.1 a (.load p) none [] (some v.2.2.res) v.2.1.isEmpty])
   else
-    let x := doLoad cfg pol i w A p
-    match createdNow x.2.1 with
-    | none => single a (.load p) x
-    | some o =>
-      let y := sub x.1 o.oid p.name
-      (y.1, seg x.1 a (.load p) none x.2.1 none true :: y.2 ++ [seg y.1 a (.load p) none [] (some x.2.2.2) false])
+    withCfPre pol i run (loadCreates w A p) w a (.load p) true p.name
+      (fun W A2 f => execLoadCore cfg pol i sub W a A2 p f)
 
 /-- second half of clone_object from world `w` (after the blueprint's create() script): the clone is made by the
     same object `A'` with the uids it has now, then the clone's create() script runs -/
@@ -432,7 +469,23 @@ def clonePhase2 (cfg : Cfg) (pol : Policy) (i : Nat) (run : Run) (sub : Sub) (w 
     else if p.name ∈ w.virt then
       let v := virtCore pol i run w a op first p true
       (v.1, v.2.1 ++ [seg v.1 a op none [] (some v.2.2.res) (first && v.2.1.isEmpty)])
-    else cloneTail cfg pol i sub w a A' newOid p first
+    else
+      -- make_new_name, then init_object = give_uid_to_object: creator_file for the clone's name
+      withCfPre pol i run true w a op first (p.name ++ "#" ++ toString w.cloneSeq)
+        (fun W A2 f => cloneTail cfg pol i sub W a A2 newOid p f)
+
+/-- clone_object of a path whose blueprint has to be loaded first: creator_file + create() of the blueprint, its
+    script, then the second half -/
+def cloneBlueprint (cfg : Cfg) (pol : Policy) (i : Nat) (run : Run) (sub : Sub) (w : World) (a : Oid) (A : Obj)
+    (newOid : Oid) (p : Path) (first : Bool) : World × List StepRec :=
+  let op := Op.clone newOid p
+  let b := create cfg pol i w A p.oid p.name true
+  if b.2.2 = false then (b.1, [seg b.1 a op none [b.2.1] (some (.err .policy)) first])
+  else
+    -- blueprint created just now: its segment and its create() script
+    let y := sub b.1 p.oid p.name
+    let t := clonePhase2 cfg pol i run sub y.1 a newOid p false
+    (t.1, seg b.1 a op none [b.2.1] none first :: y.2 ++ t.2)
 
 def execClone (cfg : Cfg) (pol : Policy) (i : Nat) (run : Run) (sub : Sub) (w : World) (a : Oid) (A : Obj)
     (newOid : Oid) (p : Path) : World × List StepRec :=
@@ -450,13 +503,7 @@ def execClone (cfg : Cfg) (pol : Policy) (i : Nat) (run : Run) (sub : Sub) (w : 
         (t.1, v.2.1 ++ t.2)
       | out => (v.1, v.2.1 ++ [seg v.1 a op none [] (some out.res) v.2.1.isEmpty])
     else
-      let b := create cfg pol i w A p.oid p.name true
-      if b.2.2 = false then (b.1, [seg b.1 a op none [b.2.1] (some (.err .policy)) true])
-      else
-        -- blueprint created just now: its segment and its create() script
-        let y := sub b.1 p.oid p.name
-        let t := clonePhase2 cfg pol i run sub y.1 a newOid p false
-        (t.1, seg b.1 a op none [b.2.1] none true :: y.2 ++ t.2)
+      withCfPre pol i run true w a op true p.name (fun W A2 f => cloneBlueprint cfg pol i run sub W a A2 newOid p f)
 
 def execReload (sub : Sub) (w : World) (a : Oid) (t : Oid) : World × List StepRec :=
   let x := doReload w t
